@@ -45,6 +45,30 @@ def _resolve_from(fi: FuncInfo, node: ast.ImportFrom) -> str:
     return base + ('.' + node.module if node.module else '')
 
 
+def _continuation(fn: ast.FunctionDef, stmt: ast.stmt) -> List[ast.stmt]:
+    """the statements executed after `stmt` falls through: the rest of its block, then of the enclosing blocks"""
+    out: List[ast.stmt] = []
+
+    def search(block) -> bool:
+        for k, s in enumerate(block):
+            if s is stmt:
+                out.extend(block[k + 1:])
+                return True
+            for fld in ('body', 'orelse', 'finalbody'):
+                b = getattr(s, fld, None)
+                if isinstance(b, list) and b and isinstance(b[0], ast.stmt) and search(b):
+                    if not isinstance(s, (ast.For, ast.While)):
+                        out.extend(block[k + 1:])
+                    return True
+            for h in getattr(s, 'handlers', []) or []:
+                if search(h.body):
+                    out.extend(block[k + 1:])
+                    return True
+        return False
+    search(fn.body)
+    return out
+
+
 def find_dispatch_sites(repo: Repo) -> List[DispatchSite]:
     sites: List[DispatchSite] = []
     for fi in repo.all_functions(pyx=False):
@@ -82,6 +106,9 @@ def find_dispatch_sites(repo: Repo) -> List[DispatchSite]:
                 sites.append(DispatchSite(fi, node, 'nofallback', alias, mod, al.name))
             else:
                 calls = [c for s in handler.body for c in ast.walk(s) if isinstance(c, ast.Call)]
+                if not calls:
+                    # the handler only swallows the ImportError: the fallback route is what follows the try statement
+                    calls = [c for s in _continuation(fi.node, node) for c in ast.walk(s) if isinstance(c, ast.Call)]
                 sites.append(DispatchSite(fi, node, 'single', alias, mod, al.name, fallback_calls=calls))
     # de-duplicate (ast.walk of an outer function also visits nested defs' try nodes)
     seen = set()
